@@ -8,7 +8,7 @@
 // the voice's Tree / TreeNode and jlabel-question's Question values (cloned, never evaluated).
 // What the shim drops: std's B-tree.  Bounded: trees of 1-2 internal nodes, concrete ids.
 //@harness name=convert_single_leaf_and_single_question tier=quick label=bounded(1-node-trees,concrete-ids) props=C04,C18 timeout=900
-// harness (NOT REGISTERED: no answer within 20 minutes under CBMC even with the list-backed map: sort_unstable + binary_search + five TreeNode values) name=convert_two_nodes_order_and_indices tier=thorough label=bounded(2-node-tree,concrete-ids) props=C04 timeout=1200
+// harness (NOT REGISTERED: no answer within 20 minutes under CBMC even with the list-backed map, with either SAT back end: the time goes into symbolic execution of sort_unstable + binary_search over five TreeNode values) name=convert_two_nodes_order_and_indices tier=thorough label=bounded(2-node-tree,concrete-ids) props=C04 timeout=1200
 //@harness name=convert_unknown_references_are_errors tier=quick label=bounded(1-node-trees) props=C18,C04 timeout=900
 use self::tree::{Node, Tree as PTree, TreeIndex};
 use crate::model::voice::question::Question;
